@@ -142,7 +142,7 @@ def oracle_surface(args):
         "; ".join(problems) or "ok"
 
 
-ORACLES = {"first_crossing": oracle_first_crossing, "surface": oracle_surface}
+ORACLES = {"whole_run": rc.oracle_whole_run, "first_crossing": oracle_first_crossing, "surface": oracle_surface}
 
 
 def _gen_seq(rng, thorough):
